@@ -206,9 +206,15 @@ def applyFunc (name : Bytes) (args : List Value) (next : Nat) : ERes :=
     | _ => .err
   else if name == fRound then
     match args with
+    | [.int i] => .ok (.int i) next                                  -- an integer is its own rounding
     | [x] => match toFloat x with
       | some f => .ok (.int (F64.toInt64Trunc (roundTo f 0))) next
       | none => .err
+    | [.int i, .int p] =>
+      if p.toInt == 0 then .ok (.int i) next
+      else
+        let r := roundTo (F64.ofInt64 i) p.toInt
+        if p.toInt ≤ 0 then .ok (.int (F64.toInt64Trunc r)) next else .ok (.float r) next
     | [x, .int p] => match toFloat x with
       | some f =>
         let r := roundTo f p.toInt
